@@ -23,6 +23,7 @@ From LF Require Import Gen.TetTable_gen Render.MarchTet Render.MarchTetSem.
 From LF Require Gen.MarchTables_gen Render.DCGrid Render.DCGridSem.
 From LF Require Render.SimplexGrid Render.SimplexGridSem.
 From LF Require Render.OctTree Render.OctTreeCollect Render.OctTreeSem.
+From LF Require Gen.LeafsManifold_gen Render.LeafsAgree.
 Import ListNotations.
 
 (* the table itself: 16 rows, 0 / 1 / 2 triangles by the number of inside vertices, every
@@ -236,6 +237,14 @@ Theorem C03_dc_boundary_clear_needed :
 Proof. destruct oboundary_clear_needed as (_ & A & B & _ & _ & _ & _ & C). split; [exact A|]. split; [exact B | exact C]. Qed.
 End Adaptive.
 
+(* THE COLLAPSE TESTS ARE THE SOURCE'S: DCTree<3>::leafsAreManifold (12 edge midpoints, 6 face centres, the cell centre) is
+   re-read from dc_tree3.cpp on every run and coincides with the model's [oleafs_manifold]; the corner table is read from
+   the source as well (Gen/ManifoldTables_gen.v, consulted by [ocorners_manifold] directly) *)
+Theorem C03_collapse_tests_from_source :
+  forall (cs : Z -> OctTree.otree) (k : Z -> bool),
+    LeafsManifold_gen.leafs_manifold3_gen cs k = OctTree.oleafs_manifold cs k.
+Proof. exact LeafsAgree.leafs_manifold3_gen_eq. Qed.
+
 Print Assumptions C03_table_sanity.
 Print Assumptions C03_tet_boundary.
 Print Assumptions C03_marching_tets_closed.
@@ -263,3 +272,4 @@ Print Assumptions Adaptive.C03_dc_adaptive_checkers_sound.
 Print Assumptions Adaptive.C03_corner_table_is_connectivity.
 Print Assumptions Adaptive.C03_dc_adaptive_example.
 Print Assumptions Adaptive.C03_dc_boundary_clear_needed.
+Print Assumptions C03_collapse_tests_from_source.
